@@ -108,7 +108,11 @@ def analyse(sh, single_toggles):
         impl_case = impl[a:b]
         if not model_ok: res["model_asis_unsound_cases"] += 1
         dis = [i for i in idx if impl[i] != asis[i]]
-        order_sensitive = any(raw[i].endswith(" ~") for i in idx) or any(desc[i] != asis[i] for i in idx)
+        # scheduling the sequential model cannot express: >= 2-element firewall / projection sets walked
+        # in hash order by spawned tasks (choice points), and unordered read groups whose members are
+        # read concurrently (join_all) inside one executor
+        unordered = "unordered" in ops[a]
+        order_sensitive = unordered or any(raw[i].endswith(" ~") for i in idx) or any(desc[i] != asis[i] for i in idx)
         if order_sensitive: res["order_sensitive_cases"] += 1
         reproduced_values = not any(vals(impl[i]) != vals(asis[i]) for i in idx)   # as-is (ascending) predicts impl's values
         label_args = []
@@ -141,6 +145,13 @@ def analyse(sh, single_toggles):
                 for t in single_toggles:
                     out = run_model_on_case(case_lines, label_args + [t]) if label_args else [strip(l) for l in models[t][a:b]]
                     if len(out) >= len(case_lines) and all(vals(out[i]) == exp[a + i] for i in idx0): who = t; break
+            elif order_sensitive:
+                # no order of the sequential model reproduces this run (the engine's own tasks interleave);
+                # rule (b) of DESIGN 2.4: a known finding's toggle repairs the case in the model
+                for t in single_toggles:
+                    m = models.get(t)
+                    if m is not None and all(vals(m[i]) == exp[i] for i in idx): who = t + "(interleaved)"; break
+                if who is None and rep_ok: who = "+".join(single_toggles) + "(interleaved)"
             if who is None: res["unexplained"].append(rec)
             else: res["attributed"].setdefault(who, []).append(rec)
         # core model
